@@ -60,7 +60,8 @@ func Create() *Builder {
 // Interface 指定接口类型的变量定义
 // iFace 必须是指针类型, 比如 i 为 interface 类型变量, iFace 传递&i
 func (b *Builder) Interface(iFace interface{}) *CachedInterfaceMocker {
-	mKey := reflect.TypeOf(iFace).String()
+	// 同一接口类型的不同变量各自独立 mock: 缓存 key 由接口类型和变量地址共同组成
+	mKey := interfaceKey(iFace)
 	if mocker, ok := b.mockers[mKey]; ok && !mocker.Canceled() {
 		b.reset2CurPkg()
 		return mocker.(*CachedInterfaceMocker)
@@ -73,6 +74,11 @@ func (b *Builder) Interface(iFace interface{}) *CachedInterfaceMocker {
 	b.cache(mKey, cachedMocker)
 	b.reset2CurPkg()
 	return cachedMocker
+}
+
+// interfaceKey 接口变量的缓存 key: 接口类型 + 变量地址
+func interfaceKey(iFace interface{}) string {
+	return fmt.Sprintf("%s@%p", reflect.TypeOf(iFace).String(), iFace)
 }
 
 // cache 添加到缓存
